@@ -232,12 +232,20 @@ pub fn trand(g: &mut Gen, r: &mut Rng, cfg: &TRandCfg) {
         let mut inserted: Vec<usize> = vec![];
         let mut vals: BTreeMap<usize, u8> = BTreeMap::new();
         let mut next_new = 0usize;
+        let mut snaps: BTreeSet<u64> = BTreeSet::new();
         for opi in 0..nops {
             let c = r.below(100);
             if c < 25 {
                 g.op("hash 0".into());
                 if r.chance(1, 4) {
                     g.op("ser 0".into());
+                }
+                if r.chance(1, 3) {
+                    // owned snapshot kept across the rest of the history (C16)
+                    let id = 70 + r.below(3);
+                    g.op(format!("snap {id} 0"));
+                    snaps.insert(id);
+                    g.note("op:snapshot");
                 }
                 g.note("op:hash");
             } else {
@@ -276,6 +284,13 @@ pub fn trand(g: &mut Gen, r: &mut Rng, cfg: &TRandCfg) {
         g.shape(&tr);
         g.op("ser 0".into());
         g.op("iter 0".into());
+        // the snapshots still describe the tree as it was; diff them against the current tree
+        g.op("snap 79 0".into());
+        for id in &snaps {
+            g.op(format!("show {id}"));
+            g.op(format!("ldiff {id} 79"));
+            g.op(format!("ldiff 79 {id}"));
+        }
         // visitor early stop at random callback indices
         let nev = tr.split(' ').count() as u64;
         for _ in 0..3 {
@@ -284,6 +299,43 @@ pub fn trand(g: &mut Gen, r: &mut Rng, cfg: &TRandCfg) {
         if case < 2 {
             g.sample(format!("trand case {case}: n={n} base={base} keys={} ops={nops}", keys.len()));
         }
+    }
+}
+
+// ------------------------------------------------------------------------------------------------
+// V-small: every tree over U keys (every subset, every level assignment) x EVERY stop index
+// ------------------------------------------------------------------------------------------------
+
+pub fn vsmall(g: &mut Gen, u: usize, nlev: u32, shard: usize, nshards: usize) {
+    let n = 2usize;
+    let base = 16u8;
+    let total = (nlev as usize).pow(u as u32);
+    for a in 0..total {
+        if a % nshards != shard {
+            continue;
+        }
+        let levels: Vec<u32> = (0..u).map(|i| ((a / (nlev as usize).pow(i as u32)) % nlev as usize) as u32).collect();
+        for subset in 1..(1usize << u) {
+            g.op(format!("new 0 {base} n={n}"));
+            for i in 0..u {
+                if subset & (1 << i) != 0 {
+                    let kd = digest_for_level(levels[i], base, n, i as u8 * 2);
+                    g.op(format!("ups 0 {} {} {}", xtok(&[0x10 + i as u8]), xtok(&kd), xtok(&val_digest(1, n))));
+                }
+            }
+            if subset % 2 == 0 {
+                g.op("hash 0".into());
+            }
+            let tr = g.op("trav 0 -".into());
+            g.shape(&tr);
+            g.op("iter 0".into());
+            let nev = tr.split(' ').count();
+            for stop in 0..=nev {
+                g.op(format!("trav 0 {stop}"));
+                g.cases += 1;
+            }
+        }
+        g.sample(format!("vsmall levels={levels:?}: every non-empty subset of {u} keys x every stop index"));
     }
 }
 
@@ -609,6 +661,147 @@ pub fn lmut(g: &mut Gen, r: &mut Rng, cases: usize, max_keys: usize) {
 }
 
 // ------------------------------------------------------------------------------------------------
+// S-rand: schedules of writes and pairwise pulls over 2..5 replicas, then a fair quiescent phase
+// ------------------------------------------------------------------------------------------------
+
+fn store_of(g: &Gen, r: u64) -> BTreeMap<Vec<u8>, Vec<u8>> {
+    g.exec.reps[&r].store.iter().map(|(k, (_, v))| (k.clone(), v.clone())).collect()
+}
+
+pub fn srand(g: &mut Gen, r: &mut Rng, cases: usize, max_ops: usize) {
+    for case in 0..cases {
+        let mut r = r.fork(case as u64);
+        let nrep = 2 + r.below(4);
+        let join = nrep > 2 || r.chance(1, 2);
+        let m = if join { "join" } else { "peer" };
+        let n = 2usize;
+        let base = 16u8;
+        let nk = 2 + r.below(14) as usize;
+        let kds: Vec<Vec<u8>> = (0..nk).map(|i| digest_for_level(geometric_level(&mut r, 4), base, n, i as u8 * 2)).collect();
+        for i in 0..nrep {
+            g.op(format!("rnew {i} {base} n={n}"));
+        }
+        g.cases += 1;
+        g.note(&format!("replicas:{nrep}:{m}"));
+        let mut written: BTreeMap<Vec<u8>, Vec<u8>> = BTreeMap::new();
+        let nops = r.below(max_ops as u64 + 1);
+        for _ in 0..nops {
+            if r.chance(3, 5) {
+                let i = r.below(nk as u64) as usize;
+                let rep = r.below(nrep);
+                let v = vec![1 + r.below(6) as u8, 0xa0];
+                let key = vec![0x30 + i as u8];
+                g.op(format!("rwrite {rep} {} {} {} {m}", xtok(&key), xtok(&kds[i]), xtok(&v)));
+                if join {
+                    let e = written.entry(key).or_insert_with(|| v.clone());
+                    if *e < v {
+                        *e = v;
+                    }
+                }
+            } else {
+                let i = r.below(nrep);
+                let mut j = r.below(nrep);
+                if i == j {
+                    j = (j + 1) % nrep;
+                }
+                g.op(format!("rpull {i} {j} {m}"));
+            }
+            if r.chance(1, 6) {
+                let h = r.below(nrep);
+                g.op(format!("rhash {h}"));
+            }
+        }
+        // writes stop. C05 (2 replicas): rounds until quiescence, bounded by the disagreeing keys
+        let all: Vec<u64> = (0..nrep).collect();
+        if nrep == 2 {
+            let (a, b) = (store_of(g, 0), store_of(g, 1));
+            let keys: BTreeSet<_> = a.keys().chain(b.keys()).cloned().collect();
+            let dis = keys.iter().filter(|k| a.get(*k) != b.get(*k)).count();
+            let mut rounds = 0;
+            loop {
+                let (a0, b0) = (store_of(g, 0), store_of(g, 1));
+                if a0 == b0 {
+                    break;
+                }
+                rounds += 1;
+                g.op(format!("rpull 1 0 {m}"));
+                g.op(format!("rpull 0 1 {m}"));
+                let (a1, b1) = (store_of(g, 0), store_of(g, 1));
+                if a1 == a0 && b1 == b0 {
+                    g.exec.fails.push(OracleFail { prop: "C05", line_no: g.exec.line_no, msg: "replicas differ but a two-way round changed neither".into() });
+                    break;
+                }
+                if rounds > dis {
+                    g.exec.fails.push(OracleFail { prop: "C05", line_no: g.exec.line_no, msg: format!("not converged after {rounds} rounds with {dis} disagreeing keys") });
+                    break;
+                }
+            }
+            g.note(&format!("rounds:{rounds}"));
+            if join {
+                let (a, _) = (store_of(g, 0), ());
+                let mut want = BTreeMap::new();
+                for s in [&a0_join(&written)] {
+                    want = s.clone();
+                }
+                if a != want {
+                    g.exec.fails.push(OracleFail { prop: "C05", line_no: g.exec.line_no, msg: "common content is not the join of everything written".into() });
+                }
+            }
+        } else {
+            // C06: fair quiescent phase: sweeps over all ordered pairs in random order
+            let mut sweeps = 0;
+            loop {
+                let before: Vec<_> = all.iter().map(|i| store_of(g, *i)).collect();
+                let mut pairs: Vec<(u64, u64)> = vec![];
+                for i in 0..nrep {
+                    for j in 0..nrep {
+                        if i != j {
+                            pairs.push((i, j));
+                        }
+                    }
+                }
+                r.shuffle(&mut pairs);
+                for (i, j) in pairs {
+                    g.op(format!("rpull {i} {j} {m}"));
+                }
+                sweeps += 1;
+                let after: Vec<_> = all.iter().map(|i| store_of(g, *i)).collect();
+                if after == before {
+                    break;
+                }
+                if sweeps > nrep as usize * (nops as usize + 1) + 1 {
+                    g.exec.fails.push(OracleFail { prop: "C06", line_no: g.exec.line_no, msg: format!("no quiescence after {sweeps} fair sweeps") });
+                    break;
+                }
+            }
+            g.note(&format!("sweeps:{sweeps}"));
+        }
+        let roots: Vec<String> = all.iter().map(|i| g.op(format!("rhash {i}"))).collect();
+        g.op("rtrav 0".into());
+        if roots.windows(2).any(|w| w[0] != w[1]) {
+            let p = if nrep == 2 { "C05" } else { "C06" };
+            g.exec.fails.push(OracleFail { prop: p, line_no: g.exec.line_no, msg: "replicas report different root hashes after the quiescent phase".into() });
+        }
+        if join {
+            for i in &all {
+                if store_of(g, *i) != written {
+                    g.exec.fails.push(OracleFail { prop: "C06", line_no: g.exec.line_no, msg: format!("replica {i} does not hold the join of everything written (lost or extra data)") });
+                    break;
+                }
+            }
+        }
+        if case < 2 {
+            g.sample(format!("srand case {case}: {nrep} replicas, merge {m}, {nk} keys, {nops} ops"));
+        }
+        g.shapes.insert(fnv(&roots.join(",")) ^ case as u64);
+    }
+}
+
+fn a0_join(w: &BTreeMap<Vec<u8>, Vec<u8>>) -> BTreeMap<Vec<u8>, Vec<u8>> {
+    w.clone()
+}
+
+// ------------------------------------------------------------------------------------------------
 // T-cfg: configurations (bases, widths, key kinds, hashers, constructors) + level / SipHash ties
 // ------------------------------------------------------------------------------------------------
 
@@ -648,6 +841,7 @@ pub fn tcfg(g: &mut Gen, r: &mut Rng, bases: &[u8], widths: &[usize], per_cfg_ke
     for &base in bases {
         for &n in widths {
             g.op(format!("new 0 {base} n={n}"));
+            g.op(format!("new 2 {base} n={n} ctor=builder2"));
             let dep = base == 16;
             if dep {
                 g.op(format!("new 1 {base} n={n} ctor=deprecated"));
@@ -670,6 +864,7 @@ pub fn tcfg(g: &mut Gen, r: &mut Rng, bases: &[u8], widths: &[usize], per_cfg_ke
                 let kd = kd_of.entry(key.clone()).or_insert(kd).clone();
                 let vd: Vec<u8> = (0..n).map(|_| r.below(256) as u8).collect();
                 g.op(format!("ups 0 {} {} {}", xtok(&key), xtok(&kd), xtok(&vd)));
+                g.op(format!("ups 2 {} {} {}", xtok(&key), xtok(&kd), xtok(&vd)));
                 if dep {
                     g.op(format!("ups 1 {} {} {}", xtok(&key), xtok(&kd), xtok(&vd)));
                 }
@@ -682,6 +877,12 @@ pub fn tcfg(g: &mut Gen, r: &mut Rng, bases: &[u8], widths: &[usize], per_cfg_ke
             g.shape(&tr);
             g.op("ser 0".into());
             g.op("iter 0".into());
+            g.op("hash 2".into());
+            g.op("trav 2 -".into());
+            let d2 = g.op("diff2 0 2".into());
+            if d2 != "[] | []" {
+                g.exec.fails.push(OracleFail { prop: "C18", line_no: g.exec.line_no, msg: "builder call order (hasher/base) changes the tree".into() });
+            }
             if dep {
                 g.op("hash 1".into());
                 g.op("ser 1".into());
@@ -696,11 +897,11 @@ pub fn tcfg(g: &mut Gen, r: &mut Rng, bases: &[u8], widths: &[usize], per_cfg_ke
     let seed: [u8; 16] = core::array::from_fn(|i| (i as u8).wrapping_mul(17).wrapping_add(3));
     for key_kind in ["bytes", "string", "fixed8"] {
         for (kind, ctors) in [
-            ("sipdef".to_string(), vec!["builder", "default", "deprecated"]),
-            (format!("sipseed:{}", hex(&seed)), vec!["builder", "deprecated"]),
+            ("sipdef".to_string(), vec!["builder", "builder2", "default", "deprecated"]),
+            (format!("sipseed:{}", hex(&seed)), vec!["builder", "builder2", "deprecated"]),
         ] {
             for &base in &[16u8, bases[r.below(bases.len() as u64) as usize]] {
-                let ctors: Vec<&str> = if base == 16 { ctors.clone() } else { vec!["builder"] };
+                let ctors: Vec<&str> = if base == 16 { ctors.clone() } else { vec!["builder", "builder2"] };
                 for (ti, c) in ctors.iter().enumerate() {
                     g.op(format!("new {ti} {base} n=16 kind={kind} ctor={c} key={key_kind}"));
                 }
